@@ -6,6 +6,8 @@
 //! `<dir>/<property>.<i>.stats` (JSON: distribution of what was generated).
 mod cap;
 mod prng;
+mod progs;
+mod run;
 mod vm;
 
 use std::fs::File;
@@ -84,6 +86,7 @@ fn main() {
     let o = parse_opts();
     match o.prop.as_str() {
         "C02" => vm::run(&o),
+        "C03" => run::run(&o),
         other => {
             eprintln!("unknown property {other}");
             std::process::exit(2);
